@@ -396,8 +396,12 @@ Step ==
                             \cup ChkTV(rec, e.name) \cup ChkName(e.name)
                             \cup (IF Len(scopes) = 1 THEN {} ELSE ChkFresh(e.name))
                             \cup (IF infer /\ Peek(0).k = "Q" /\ ~Resolve(Peek(0), <<>>).ok THEN {<<p, i, "TypeArgsNotInferable", e.name, Peek(0), Bot>>} ELSE {})
-                            \cup (IF infer /\ Peek(0).k = "QF" /\ ~ResolveF(Peek(0), <<>>).ok THEN {<<p, i, "TypeArgsNotInferable.Call", e.name, Peek(0).a[1], Bot>>} ELSE {})
-                            \cup (IF infer /\ nat.k = "N" THEN {<<p, i, "VarTypeNotInferable", e.name, Bot, rec>>} ELSE {})
+                            \* known-finding shape BoundOnly: every type parameter of the call has a declared bound (the dependency analysis
+                            \* counts the bound as a source for the type argument; javac infers the bound, kotlinc and scalac do not)
+                            \cup (IF infer /\ Peek(0).k = "QF" /\ ~ResolveF(Peek(0), <<>>).ok
+                                  THEN {<<p, i, "TypeArgsNotInferable.Call" \o (IF \A q \in DOMAIN Peek(0).a[2].a : Peek(0).a[2].a[q].a # <<>> THEN "/BoundOnly" ELSE ""),
+                                          e.name, Peek(0).a[1], Bot>>} ELSE {})
+                            \cup (IF infer /\ nat.k = "N" /\ Peek(0).k # "QF" THEN {<<p, i, "VarTypeNotInferable", e.name, Bot, rec>>} ELSE {})
        [] e.ev = "Const" -> /\ UNCHANGED <<scopes, viol>> /\ ts' = Push(ts, ConstT(e))
        [] e.ev = "Bottom" -> /\ UNCHANGED <<scopes, viol>> /\ ts' = Push(ts, IF e.t = <<>> THEN Bot ELSE StripW(e.t[1]))
        [] e.ev = "Var" ->
